@@ -76,10 +76,13 @@ class Plane:
         status = SolverStatus.converged
         if self.fault is not None:
             status = self.fault(self, k, solver)
+        # the real _solver_helper reports an iteration count for the Newton solver only (None for the scipy solvers)
+        from wntr.sim.solvers import NewtonSolver as _Newton
+        it = 1 if solver is _Newton else None
         if status == SolverStatus.converged:
             self.policy(self, self.wn, model)
-            return SolverStatus.converged, 'Solved Successfully', 1
-        return SolverStatus.error, 'stub: solve failed', 1
+            return SolverStatus.converged, 'Solved Successfully', it
+        return SolverStatus.error, 'stub: solve failed', it
 
     def run(self, wn, **kw):
         self.wn = wn
